@@ -16,6 +16,7 @@ import (
 
 	errorsv3 "gopkg.in/hedzr/errors.v3"
 
+	"github.com/hedzr/is/term/color"
 	"github.com/hedzr/logg/slog"
 )
 
@@ -163,6 +164,7 @@ func runC09(r *run) {
 			base.attrs = append(base.attrs, gattr{key: "time", val: c09TimeAttr(g.encTime())})
 		}
 		registerLate := (lvl == 57 || lvl == 58) && g.chance(2, 3)
+		fgOnly, fgColor := g.chance(1, 2), 31+g.intn(6)
 		if registerLate {
 			lvl = 100 + i // a number no earlier group has used: the first history sees it fresh
 			base.lvl = lvl
@@ -185,9 +187,22 @@ func runC09(r *run) {
 			if registerLate {
 				// the level gets registered (title only) after the history may already have printed it
 				title := fmt.Sprintf("NOTICE-%d", lvl)
-				_ = slog.RegisterLevel(slog.Level(lvl), title)
-				r.emit(fmt.Sprintf("C17 reg %d %s x x x x x x -1 -1 12 0", lvl, hxs(title)), "ok")
-				hd += "; RegisterLevel(" + title + ")"
+				if fgOnly {
+					// a foreground color only: the background of such a level is "none", whatever was printed before
+					_ = slog.RegisterLevel(slog.Level(lvl), title, slog.RegWithColor(color.Color(fgColor)))
+					r.emit(fmt.Sprintf("C17 reg %d %s x x x x x x %d -1 12 0", lvl, hxs(title), fgColor), "ok")
+					hd += "; RegisterLevel(" + title + ", foreground color only)"
+				} else {
+					_ = slog.RegisterLevel(slog.Level(lvl), title)
+					r.emit(fmt.Sprintf("C17 reg %d %s x x x x x x -1 -1 12 0", lvl, hxs(title)), "ok")
+					hd += "; RegisterLevel(" + title + ")"
+				}
+			}
+			if h > 0 && g.chance(1, 2) {
+				// the record formatted right before the probe: a level with a background color, on another logger
+				n := &encCase{format: "c", lvl: []int{6, 8, 9, 10, 11}[g.intn(5)], ts: g.encTime(), msg: "right before the probe", tagW: tagW, minW: minW, name: "prev"}
+				encRun(r, "C09", n)
+				hd += "; a colored record at a level with a background color right before"
 			}
 			c := *base
 			encRun(r, "C09", &c)
